@@ -65,14 +65,17 @@ Class(b, rnt) ==
   ELSE IF ~lv.ok THEN "R"
   ELSE IF ~rnt THEN "O"
   ELSE LET rest == SubSeq(b, lv.nx, Len(b)) IN
-       IF rest = <<>> \/ (\E i \in DOMAIN rest : rest[i] > 32) \/ rest[Len(rest)] # 0 THEN "T" ELSE "O"   \* T: refused by the termination rule (C10)
+       \* G: bytes that are not whitespace follow the value, and they are tolerated only when termination is not required (C03, C10)
+       \* T: the value is followed by whitespace only, but no zero byte inside the buffer ends it (C10)
+       IF \E i \in DOMAIN rest : rest[i] > 32 THEN "G"
+       ELSE IF rest = <<>> \/ rest[Len(rest)] # 0 THEN "T" ELSE "O"
 
 \* ---- one case -------------------------------------------------------------------------------------------
 Variant(b, rnt) ==
   LET r == ParseBuf(b, rnt) c == Class(b, rnt) IN
   [r |-> r, c |-> c, n |-> Len(b),
    good |-> /\ (c = "A" => r.ok /\ StrictEq(r.v, TextValue(Held(b, rnt), "rfc")))                    \* C02
-            /\ (c \in {"R", "T"} => ~r.ok)                                                                   \* C03 / C10
+            /\ (c \in {"R", "T", "G"} => ~r.ok)                                                                   \* C03 / C10
             /\ (r.ok => r.end >= 0 /\ r.end <= Len(b)                                                \* C10 parse end
                         /\ LET p == ParseBuf(SubSeq(b, 1, r.end), FALSE) IN p.ok /\ StrictEq(p.v, r.v))
             /\ (r.ok /\ rnt => r.end < Len(b) /\ b[r.end + 1] = 0)                                   \* C10 termination
@@ -97,7 +100,23 @@ EditsOf(t) == {SubSeq(t, 1, i - 1) \o SubSeq(t, i + 1, Len(t)) : i \in 1..Len(t)
 
 Extendable(t) == LET r == ParseBuf(t, FALSE) IN (r.ok /\ r.end = Len(t)) \/ (~r.ok /\ r.eof)
 
+\* ---- the string decoder as a byte table ("strtable") -----------------------------------------------------
+\* copy[c]: the literal "c" is decoded to exactly the byte c;  valid[c]: that literal is an RFC 8259 text on its own (class A).
+\* The decoder copies such bytes one by one (Decode), so the table determines every literal made of them: checked here on all
+\* pairs of a sample, applied by the driver to every literal of 1-3 bytes.
+QLit(bs) == <<34>> \o bs \o <<34>>
+CopyByte(c) == LET r == ParseBuf(QLit(<<c>>), FALSE) IN r.ok /\ r.end = 3 /\ StrictEq(r.v, VStr(<<c>>))
+ValidByte(c) == Class(QLit(<<c>>), FALSE) = "A"
+TableSample == {1, 31, 32, 33, 35, 47, 91, 93, 127, 128, 194, 224, 226, 237, 239, 244, 255}
+ByteWise == \A c \in TableSample : \A d \in TableSample : \A e \in {9, 97, 169, 255} :
+              (CopyByte(c) /\ CopyByte(d) /\ CopyByte(e)) =>
+                 LET r == ParseBuf(QLit(<<c, d, e>>), FALSE) IN r.ok /\ r.end = 5 /\ StrictEq(r.v, VStr(<<c, d, e>>))
+EmitTable == /\ Assert(ByteWise, "the string decoder is not byte-wise on copied bytes")
+             /\ Assert(\A c \in 1..255 : CopyByte(c) <=> c \notin {34, 92}, "unexpected copy set")
+             /\ (Emit => PrintT(ToJson(<<"Y", [c \in 1..255 |-> IF CopyByte(c) THEN 1 ELSE 0], [c \in 1..255 |-> IF ValidByte(c) THEN 1 ELSE 0]>>)))
+
 InvCase ==
+  /\ (U = "strtable") => EmitTable
   /\ \A k \in (cut + 1)..Len(s) : CheckOne(SubSeq(s, 1, k))           \* the case and every truncation inside its last unit
   /\ (Len(s) = 0 /\ cut = 0) => CheckOne(<<>>)
   /\ (Edits /\ RfcText(s)) => \A e \in EditsOf(s) : CheckOne(e)
